@@ -332,7 +332,7 @@ def drive_shape(args):
                 stt = PT.gen_pattern(rng, types, default=0.0, start_id=800 + 10 * pi_, dtype='bool' if boolmode else 'float')
                 targets.append(('fresh', PT.build(stt, dtype)))
                 targets.append(('self', p))
-                if p.ndim >= 2 and len(set(p.shape)) == 1:      # X(a,b) against X(b,a) is an index-type mismatch unless a = b
+                if p.ndim >= 2 and len(set(repr(t) for t in types)) == 1:      # X(a,b) against X(b,a) is an index-type mismatch unless a and b are the same index type
                     targets.append(('selfT_flat', None))
             except Exception:
                 pass
